@@ -554,6 +554,16 @@ def check_long(ctx, case):
         roundtrip(ctx, g, case, which, "long:scan")
         seen.update(tuple(sp) for sp in chunk)
     ctx.count("long:distinct-ions-scanned", len(seen))
+    # and every ion of every isotope of that table is looked up once (more than 14 000 objects: any bounded memo of
+    # ions has evicted the ones held above by now)
+    if len(specs) > 200:
+        nall = 0
+        for el in table:
+            for iso in el:
+                for c in el.ions:
+                    iso.ion[c]
+                    nall += 1
+        ctx.count("long:all-isotope-ions-looked-up", nall)
     # the formulas built first, again
     for f, w in held:
         roundtrip(ctx, f, case, w, "long:again")
